@@ -74,6 +74,7 @@ class FnSpec:
     opens_invariants: str = ""
     stmts: str = ""     # expected top-level statement counts, e.g. "6" or "6 4/1:3"
     closures: dict = field(default_factory=dict)   # ordinal -> FnSpec-like (ret type, requires, ensures)
+    genpost: str = ""   # name of a generated spec predicate = conjunction of the ensures clauses
 
 
 @dataclass
@@ -159,6 +160,8 @@ def parse_contract_file(path):
                 cur.ret = line[4:].strip()
             elif line.startswith("attr:"):
                 cur.attrs.append(line[5:].strip())
+            elif line.startswith("genpost:"):
+                cur.genpost = line.split(":", 1)[1].strip()
             elif line.startswith("stmts:"):
                 cur.stmts = line[6:].strip()
             elif line.startswith("opens_invariants:"):
@@ -643,6 +646,8 @@ class FileWeaver:
                 self.add(toks[te].end, 0, ")", "ghost")
             else:
                 raise WeaveError("ret: given but %s has no return type" % key)
+        if spec and spec.genpost:
+            self.gen_post(spec, owner, j, pclose, it)
         # contract clauses
         if spec and (spec.requires or spec.ensures or spec.decreases or spec.opens_invariants):
             text, marks = self.render_clauses(spec)
@@ -651,6 +656,61 @@ class FileWeaver:
             return
         # N2 + loops + hints inside the body
         self.body(it, spec, key)
+
+    def gen_post(self, spec, owner, popen, pclose, it):
+        """spec predicate  NAME(o: Owner, f: Owner, params..)  = conjunction of the ensures
+        clauses with old(self) -> o, final(self) -> f (only for `&mut self` methods)"""
+        toks = self.toks
+        params = []
+        i = next_sig(toks, popen + 1)
+        first = True
+        idx = 0
+        while i < pclose:
+            # one parameter: tokens up to next top-level comma
+            q = i
+            depth = 0
+            while q < pclose:
+                t = toks[q]
+                if t.kind == PUNCT:
+                    if t.text in "([{":
+                        q = match_close(toks, q)
+                    elif t.text == "<":
+                        depth += 1
+                    elif t.text == ">" and toks[q - 1].text != "-":
+                        depth -= 1
+                    elif t.text == "," and depth == 0:
+                        break
+                q += 1
+            ptoks = [t for t in toks[i:q] if t.sig()]
+            txt = [t.text for t in ptoks]
+            if "self" in txt and ":" not in txt:
+                pass
+            else:
+                if ptoks[0].text == "(":
+                    name = "__p%d" % idx
+                    k = txt.index(":", txt.index(")"))
+                else:
+                    name = ptoks[1].text if ptoks[0].text == "mut" else ptoks[0].text
+                    k = txt.index(":")
+                ty = self.src[ptoks[k + 1].pos:ptoks[-1].end]
+                params.append((name, ty))
+            idx += 1
+            i = next_sig(toks, q + 1)
+        body = []
+        for c in spec.ensures:
+            if "KF" in c.tags:
+                continue   # known-finding clause: fails on the pinned tree, not part of the relied-upon contract
+            t = c.text.replace("*old(self)", "o").replace("old(self)", "o").replace("*final(self)", "f").replace("final(self)", "f")
+            body.append("        &&& (%s)" % t)
+        sig = ", ".join(["o: %s" % owner, "f: %s" % owner] + ["%s: %s" % (n, t) for n, t in params])
+        if spec.ret:
+            # return type text
+            k = next_sig(toks, pclose + 1)
+            ts = next_sig(toks, k + 2)
+            te = prev_sig(toks, it.open - 1)
+            sig += ", %s: %s" % (spec.ret, self.src[toks[ts].pos:toks[te].end])
+        self.extra_text = (self.extra_text or "") + "\n/// generated from the ensures clauses of %s (%s)\npub open spec fn %s(%s) -> bool {\n%s\n}\n" % (
+            spec.key, spec.src, spec.genpost, sig, "\n".join(body) if body else "        true")
 
     def render_clauses(self, spec):
         out = ["\n"]
